@@ -69,6 +69,10 @@ def make_plan(seed: int, tier: str) -> dict:
             op.update(cohort=st.randint(0, 2), n=st.randint(1, 3))
         elif k == "simulate":
             op.update(aseed=st.randint(0, 5), patients=st.randint(3, 5))
+            if st.bernoulli(0.5):
+                # table-driven design handed over by the caller: it must come back untouched (values, dtypes, row labels)
+                op["table"] = {"id_dtype": st.choice(["object", "string", "category"]), "n": st.randint(2, 4), "visits": st.randint(1, 3),
+                               "labels": st.choice(["default", "gaps"])}
         elif k == "repeat":
             op.update(which=st.randint(0, 63))
         elif k == "refit":
@@ -218,11 +222,29 @@ def run_plan(plan: dict) -> dict:
         if k == "simulate":
             vp = {"patient_number": desc["patients"], "visit_type": "random", "first_visit_mean": 0.0, "first_visit_std": 0.4, "time_follow_up_mean": 3.0,
                   "time_follow_up_std": 0.5, "distance_visit_mean": 1.0, "distance_visit_std": 0.2, "min_spacing_between_visits": 0.1}
-            vp_copy = copy.deepcopy(vp)
+            table = None
+            if desc.get("table"):
+                t = desc["table"]
+                rows = [(f"v{i}", round(62.0 + 3.1 * i + 1.3 * j, 2)) for i in range(t["n"]) for j in range(t["visits"])]
+                table = pd.DataFrame(rows, columns=["ID", "TIME"])
+                if t["id_dtype"] != "object":
+                    table["ID"] = table["ID"].astype(t["id_dtype"])
+                if t["labels"] == "gaps":
+                    table.index = [5 + 2 * i for i in range(len(table))]
+                vp = {"visit_type": "dataframe", "df_visits": table}
+                C["probe.simulate_from_caller_table"] += 1
+            table_before = table.copy(deep=True) if table is not None else None
+            vp_copy = {k_: v for k_, v in vp.items() if k_ != "df_visits"}
+            vp_copy = copy.deepcopy(vp_copy)
             feats = list(m.features)
             res = m.simulate(algorithm="simulate", features=feats, visit_parameters=vp, seed=desc["aseed"])
             df = res.data.to_dataframe()
-            return _df_digest(df.set_index(["ID", "TIME"]) if "ID" in df.columns else df), [("visit_parameters", vp == vp_copy), ("features", feats == list(m.features))]
+            checks = [("visit_parameters", {k_: v for k_, v in vp.items() if k_ != "df_visits"} == vp_copy), ("features", feats == list(m.features))]
+            if table is not None:
+                same_table = (vp.get("df_visits") is table and table.equals(table_before) and list(table.dtypes.astype(str)) == list(table_before.dtypes.astype(str))
+                              and list(table.index) == list(table_before.index) and list(table.columns) == list(table_before.columns))
+                checks.append((f"visit_table:{desc['table']['id_dtype']}", same_table))
+            return _df_digest(df.set_index(["ID", "TIME"]) if "ID" in df.columns else df), checks
         raise ValueError(k)
 
     with ac.quiet():
